@@ -15,7 +15,7 @@ OUTPUTS = ["Partition", "Sums", "BinCount"]
 def evaluate(case):
     C, values = case["binsize"], case["values"]
     labels = [f"pres={case.get('pres', 'list')}", f"profile={case.get('profile', '-')}"] + S.value_labels(values)
-    optimum = case.get("planted_optimum") or oracles.min_bins(values, C)
+    optimum = oracles.min_bins(values, C)          # always the exact oracle (<= 14 items), never a construction's claim
     ref_ffd = len(refmodels.first_fit_decreasing(values, C))
     ref_bfd = len(refmodels.best_fit_decreasing(values, C))
     fails = []
@@ -91,6 +91,89 @@ def valid(case):
     return cases.valid_packing_case(case) and all(v >= 1 for v in case["values"]) and len(case["values"]) <= 14
 
 
+# ------------------------------------------------------------------ search guided by the dominance filter (anchor: "the dominance
+# filter must only discard completions that can be replaced without loss")
+
+def fits_into(l1, l2):
+    """Martello-Toth dominance, by brute force: can the items of l2 be placed into 'bins' whose capacities are the items of l1?"""
+    caps = list(l1)
+
+    def place(i):
+        if i == len(l2):
+            return True
+        seen = set()
+        for j in range(len(caps)):
+            if caps[j] >= l2[i] and caps[j] not in seen:
+                seen.add(caps[j])
+                caps[j] -= l2[i]
+                if place(i + 1):
+                    caps[j] += l2[i]
+                    return True
+                caps[j] += l2[i]
+        return False
+    return place(0)
+
+
+def embed(l1, l2, variant):
+    """A perfect packing (zero slack) in which the bin of the largest item x can only be completed by l2, and every item of l1 is
+    needed in a bin of its own: x = C - sum(l2); each a in l1 sits with two fillers p + q = C - a that are too big to join x.
+    If a search discards l2 as 'dominated by l1' although l2 does not fit into l1, it can no longer find the m-bin packing."""
+    t = 1 + variant % 3
+    l1, l2 = [v * t for v in l1], [v * t for v in l2]
+    s2 = sum(l2)
+    C = 5 * s2 + 2 * max(l1 + l2) + (variant // 3) % 4
+    x = C - s2
+    values = [x] + l1 + l2
+    for i, a in enumerate(l1):
+        rest = C - a
+        p_ = rest // 2 + ((variant // 12 + i) % 3)
+        values += [p_, rest - p_]
+    keys = S.splitmix(variant * 7919 + 13, len(values), 0, 2 ** 30)
+    values = [values[i] for i in sorted(range(len(values)), key=lambda i: (keys[i], i))]
+    return {"alg": "bc", "values": values, "binsize": C, "pres": "list", "nseed": 0, "profile": "embedded-dominance-pair"}
+
+
+def guided_leg(n, seed, rec, tier):
+    """1. probe the helper on many pairs of candidate completions and keep those where it claims dominance although l2 does not fit
+    into l1 (a claim that is at least not justified by the Martello-Toth criterion);  2. embed each such pair into perfect-packing
+    instances and let the ordinary end-to-end oracle decide.  The helper's answer alone is never a verdict."""
+    pairs = []
+    draws = S.splitmix(seed, 6 * 4000, 0, 2 ** 30)
+    for i in range(0, len(draws), 6):
+        d = draws[i:i + 6]
+        vmax = 6 + d[0] % 10
+        l1 = sorted([1 + d[1 + j] % vmax for j in range(1 + d[5] % 2)], reverse=True)
+        l2 = sorted([1 + (d[1 + j] >> 8) % vmax for j in range(2 + (d[5] >> 4) % 3)], reverse=True)
+        if sum(l1) >= sum(l2) and l1 != l2:
+            pairs.append((l1, l2))
+    claims = sut.dominance_claims(pairs)
+    if claims is None:
+        rec.labels["guided:skipped(helper not found)"] += 1
+        return
+    suspicious = [pr for pr, c in zip(pairs, claims) if c and not fits_into(*pr)]
+    rec.labels["guided:pairs-probed"] += len(pairs)
+    rec.labels["guided:claims-not-justified-by-fitting"] += len(suspicious)
+    seen = set()
+    budget = max(10, n)
+    for l1, l2 in suspicious:
+        key = (tuple(l1), tuple(l2))
+        if key in seen:
+            continue
+        seen.add(key)
+        for variant in range(6):
+            if budget <= 0:
+                return
+            case = embed(l1, l2, variant + 6 * (seed % 5))
+            if len(case["values"]) <= 12:
+                budget -= 1
+                rec.run(case)
+    # controls: embeddings of justified pairs must be solved too (and give the leg something to count on the unchanged tree)
+    for (l1, l2), c in list(zip(pairs, claims))[:max(10, min(budget, 60))]:
+        case = embed(l1, l2, seed % 36)
+        if len(case["values"]) <= 12:
+            rec.run(case)
+
+
 def legs(tier):
     return [
         Leg("corpus", evaluate, "the cited instances and every input that exposed a repaired defect",
@@ -103,6 +186,12 @@ def legs(tier):
         Leg("exhaustive-small", evaluate,
             "all multisets of <=7 items from 1..C for C in {5,6,7,8,10} (quick: 1/40 slice); same rule",
             enum=exhaustive_cases, valid=valid, exhaustive=True, scope="multisets(<=7 from 1..C), C in {5,6,7,8,10}"),
+        Leg("guided-by-dominance-filter", evaluate,
+            "white-box guided: bin completion's dominance helper is probed on ~4,000 pairs of candidate completions per shard; every pair for "
+            "which it claims dominance although the second does not fit into the first (brute force) is embedded into zero-slack perfect "
+            "packings in which the largest item's bin can only be completed by the second list; the ordinary end-to-end oracle decides "
+            "(the helper's answer alone is never a verdict); plus control embeddings of justified pairs; same non-triviality rule",
+            stateful=guided_leg, n_quick=240, n_thorough=2400, valid=valid, shards=4),
         fuzz_target.fuzz_leg(PROP, 80000, evaluate, valid),
     ]
 
